@@ -192,12 +192,22 @@ def run_mc(vm, mc, spec_path, workdir, cfg, max_errors=-1, timeout=120, extra=()
 
 # ---------------------------------------------------------------------------------------------------------------------
 # Mazurkiewicz classes under the checker's own dependency relation
+MULTI = ("RANDOM", "WAITANY", "TESTANY")      # transitions with several outcomes selected by times_considered
+
+
+def event_name(e, k):
+    """(actor, rank among the events of this actor, type, times considered when it selects an outcome).
+    times_considered is ignored for single-outcome transitions: the application ignores it too (ODPOR sometimes
+    executes e.g. an iSend "with times_considered 1": physically the same transition)."""
+    return (e.aid, k, e.type, e.times if e.type in MULTI else 0)
+
+
 def canonical(events):
     """Foata normal form of one execution.
 
-    An event is named by (actor, rank among the events of this actor, type, times considered): this is what stays
-    the same when adjacent independent transitions are swapped.  Its level is 1 + the highest level among the earlier
-    events it depends on (same actor: always; other actor: as answered by dispatch_depends in that very execution)."""
+    An event is named by event_name(): this is what stays the same when adjacent independent transitions are
+    swapped.  Its level is 1 + the highest level among the earlier events it depends on (same actor: always; other
+    actor: as answered by dispatch_depends in that very execution)."""
     level = []
     rank = {}
     last_of = {}
@@ -213,7 +223,7 @@ def canonical(events):
                 lv = level[j] + 1
         level.append(lv)
         last_of[e.aid] = i
-        names.append((e.aid, k, e.type, e.times))
+        names.append(event_name(e, k))
     n = (max(level) + 1) if level else 0
     out = [[] for _ in range(n)]
     for nm, lv in zip(names, level):
@@ -230,7 +240,7 @@ def hb_pairs(events):
     for e in events:
         k = rank.get(e.aid, 0)
         rank[e.aid] = k + 1
-        nm.append((e.aid, k, e.type, e.times))
+        nm.append(event_name(e, k))
     n = len(events)
     before = [set() for _ in range(n)]
     last_of = {}
